@@ -373,11 +373,20 @@ def main(tier):
     corr = []          # broken ties without failing input: (name, case, real, model)
     ref_broken = []    # reference validation failures
     tag = "_%d" % (seed() % 100000)
+    per_aspect = {}
 
     def violation(aspect, case, what, real, model, expected):
         """a failing input on the real code (oracle disagrees): shrink and report"""
+        if per_aspect.get(aspect, 0) >= 6:
+            # enough distinct shapes shown for this aspect: fold the rest into one line
+            ck.report("C16:%s:(further shapes)" % aspect, "%s: %s" % (aspect, what), "oracle",
+                      theorem_of(aspect), case=case.dump(), real=real, model=model, expected=expected)
+            return
         c2 = shrink(aspect, case)
-        ck.report(sig(aspect, c2.top, c2.env), "%s: %s" % (aspect, what), "oracle",
+        sg = sig(aspect, c2.top, c2.env)
+        if sg not in ck.known and not any(v["signature"] == sg for v in ck.violations):
+            per_aspect[aspect] = per_aspect.get(aspect, 0) + 1
+        ck.report(sg, "%s: %s  [minimal: %r psize=%s]" % (aspect, what, c2.env[c2.top]["src"], c2.ps), "oracle",
                   theorem_of(aspect), case=c2.dump(), real=real, model=model, expected=expected)
 
     def theorem_of(aspect):
@@ -532,33 +541,66 @@ def main(tier):
         return any(f[0] == aspect for f in eval_unpack(c2, classes))
 
     def shrink(aspect, case):
-        """greedy: drop top-level fields while the same aspect still fails (data re-synthesised)"""
+        """greedy: descend into nested types, drop top-level fields, drop array counts — while the same
+        aspect still fails (data re-synthesised)"""
         cur = case
-        progress = True
         n0 = len(corr)
-        try:
-            while progress and len(cur.env[cur.top]["fields"]) > 1:
-                progress = False
-                for i in range(len(cur.env[cur.top]["fields"])):
-                    env2 = copy.deepcopy(cur.env)
-                    d = env2[cur.top]
-                    f = d["fields"].pop(i)
-                    if any(g.get("ref") == f.get("name") for g in d["fields"]):
+        nref = len(ref_broken)
+
+        def resynth(top, env, old):
+            if old.data is None:
+                return None
+            try:
+                return O.synth(top, env, old.ps if old.ps else 8, rng("C16.shrink"))
+            except Exception:
+                return False
+
+        def candidates(c):
+            d = c.env[c.top]
+            # 1. a nested type alone
+            for f in d["fields"]:
+                if f["k"] in ("nest", "bitsEx"):
+                    names = list(c.env)
+                    sub = {n: c.env[n] for n in names[:names.index(f["ty"]) + 1]}
+                    yield f["ty"], copy.deepcopy(sub)
+            # 2. without one field
+            if len(d["fields"]) > 1:
+                for i in range(len(d["fields"])):
+                    env2 = copy.deepcopy(c.env)
+                    d2 = env2[c.top]
+                    f = d2["fields"].pop(i)
+                    if any(g.get("ref") == f.get("name") for g in d2["fields"]):
                         continue
-                    d["src"] = regen_src(d)
-                    data = cur.data
-                    if data is not None:
-                        try:
-                            data = O.synth(cur.top, env2, cur.ps, rng("C16.shrink"))
-                        except Exception:
-                            continue
-                    c2 = Case(cur.top, env2, cur.ps, data, 0, cur.stream)
+                    d2["src"] = regen_src(d2)
+                    yield c.top, env2
+            # 3. arrays -> single elements
+            for i, f in enumerate(d["fields"]):
+                if f.get("count"):
+                    env2 = copy.deepcopy(c.env)
+                    env2[c.top]["fields"][i]["count"] = 0
+                    env2[c.top]["src"] = regen_src(env2[c.top])
+                    yield c.top, env2
+            if d.get("packed"):
+                env2 = copy.deepcopy(c.env)
+                env2[c.top]["packed"] = False
+                yield c.top, env2
+
+        try:
+            for _ in range(40):
+                for top2, env2 in candidates(cur):
+                    data = resynth(top2, env2, cur)
+                    if data is False:
+                        continue
+                    c2 = Case(top2, env2, cur.ps, data, 0, cur.stream)
                     if fails_aspect(aspect, c2):
-                        cur, progress = c2, True
+                        cur = c2
                         break
+                else:
+                    break
         except Exception:
             pass
         del corr[n0:]
+        del ref_broken[nref:]
         return cur
 
     def run_case(case, do_layout=True):
